@@ -27,8 +27,9 @@ Theorem C16_parsed_keys_distinct : forall (cards : list scard) (t : table),
 Proof. exact parsed_keys_distinct. Qed.
 Print Assumptions C16_parsed_keys_distinct.
 
-(* bc_kind: star -> REFLECTION, plus -> COSINUS, no flag -> no entry (whatever
-   the other cards are, as long as the block is produced) *)
+(* bc_kind, on the dictionary conversionBoundCond returns (the block is made
+   from it by C16_bc_designates_present_same_locus / _entries_designate_written):
+   star -> REFLECTION, plus -> COSINUS, no flag -> no entry *)
 Theorem C16_bc_kind : forall (t : table) (l : list (kind * N)) (k : N) (e : entry),
   bc_entries t = Ok l -> In (k, e) t ->
   (e_flag e = "*" -> In (Reflection, k) l) /\
@@ -37,16 +38,16 @@ Theorem C16_bc_kind : forall (t : table) (l : list (kind * N)) (k : N) (e : entr
 Proof. exact bc_kind. Qed.
 Print Assumptions C16_bc_kind.
 
-(* exactly one entry designates the number of a flagged surface, none that of
-   an unflagged one *)
+(* in that dictionary exactly one entry has the number of a flagged surface,
+   none that of an unflagged one *)
 Theorem C16_bc_one_per_flag : forall (t : table) (l : list (kind * N)) (k : N) (e : entry),
   NoDup (map fst t) -> bc_entries t = Ok l -> In (k, e) t ->
   count_key k l = if String.eqb (e_flag e) "" then 0%nat else 1%nat.
 Proof. exact bc_one_per_flag. Qed.
 Print Assumptions C16_bc_one_per_flag.
 
-(* with MCNP's flags only and no flagged macrobody the block is exactly the
-   flagged numbers, in card order, each with the kind of its flag *)
+(* with MCNP's flags only and no flagged macrobody that dictionary is exactly
+   the flagged numbers, in card order, each with the kind of its flag *)
 Theorem C16_bc_entries_exact : forall t : table,
   proper t -> bc_entries t = Ok (flat_map entry_of t).
 Proof. exact bc_entries_exact. Qed.
@@ -80,11 +81,12 @@ Theorem C16_written_surfaces_exact :
 Proof. exact written_surfaces_exact. Qed.
 Print Assumptions C16_written_surfaces_exact.
 
-(* bc_designates_present_same_locus, under the guard the code needs: the
-   flagged surface is used by a cell that survives, and either de-duplication
-   is off or the surface is the smallest-numbered among its duplicates.  Then
-   its entry has the kind of the flag and designates a written SURF line whose
-   descriptor is the flagged surface's own (hence the same locus). *)
+(* bc_designates_present_same_locus, no guard (writeT4BoundCond as repaired in
+   /repo 540bd39): a flagged surface that bounds a converted cell that survives
+   has an entry of the kind of its flag on its representative k' (itself, or
+   the smallest-numbered surface with an equal descriptor when de-duplication
+   is on); exactly one entry designates k'; and SURF k' is written with the
+   flagged surface's own descriptor (hence its locus). *)
 Theorem C16_bc_designates_present_same_locus :
   forall (cfg : config) (cards : list scard) (cells : list cell) (t : table)
          (surfs : list (N * N)) (bcs : list (kind * N)) (k : N) (e : entry),
@@ -93,35 +95,49 @@ Theorem C16_bc_designates_present_same_locus :
   run cfg cards cells = Ok (surfs, bcs) ->
   In (k, e) t -> (e_flag e = "*" \/ e_flag e = "+") ->
   (exists c, In c cells /\ survives (negb (skip_dedup cfg)) (number_items t) c /\ bounds c k) ->
-  (skip_dedup cfg = true \/ smallest_dup (number_items t) k) ->
-  In (kind_of (e_flag e), k) bcs /\ In (k, e_first e) surfs.
+  let k' := rep (negb (skip_dedup cfg)) (number_items t) k in
+  In (kind_of (e_flag e), k') bcs /\ count_key k' bcs = 1%nat /\ In (k', e_first e) surfs.
 Proof. exact bc_designates_present_same_locus. Qed.
 Print Assumptions C16_bc_designates_present_same_locus.
 
-(* without the second half of the guard the statement is false: *2 PX 0 and
-   *3 PX 0, the cell uses 3; the block designates 3, only SURF 2 is written
-   (DESIGN 8 #12, finding class bc_on_deduplicated_surface) *)
-Theorem C16_bc_dedup_refuted :
-  exists t surfs bcs k e c,
-    parse_cards w_dedup_cards [] = Ok t /\
-    run (mkCfg false false) w_dedup_cards w_dedup_cells = Ok (surfs, bcs) /\
-    In (k, e) t /\ e_flag e = "*" /\
-    In c w_dedup_cells /\ survives true (number_items t) c /\ bounds c k /\
-    In (Reflection, k) bcs /\ ~ In k (map fst surfs).
-Proof. exact bc_dedup_refuted. Qed.
-Print Assumptions C16_bc_dedup_refuted.
+(* the converse, no guard: every entry of the block designates a written SURF
+   that carries the descriptor of a flagged surface of the entry's kind, and
+   no two entries designate the same SURF (so unflagged loci yield none) *)
+Theorem C16_bc_entries_designate_written :
+  forall (cfg : config) (cards : list scard) (cells : list cell) (t : table)
+         (surfs : list (N * N)) (bcs : list (kind * N)),
+  skip_bc cfg = false ->
+  parse_cards cards [] = Ok t ->
+  run cfg cards cells = Ok (surfs, bcs) ->
+  NoDup (map snd bcs) /\
+  forall kd k', In (kd, k') bcs ->
+    exists k e, In (k, e) t /\ e_flag e <> "" /\
+      (e_flag e = "*" -> kd = Reflection) /\ (e_flag e = "+" -> kd = Cosinus) /\
+      rep (negb (skip_dedup cfg)) (number_items t) k = k' /\ In (k', e_first e) surfs.
+Proof. exact bc_entries_designate_written. Qed.
+Print Assumptions C16_bc_entries_designate_written.
 
-(* without the first half: *5 PY 7 used by no cell still gets an entry, with
-   or without de-duplication, and there is no SURF 5 (finding class
-   bc_on_unused_surface) *)
-Theorem C16_bc_unused_refuted :
-  exists t surfs bcs e,
-    parse_cards w_unused_cards [] = Ok t /\
-    (forall dedup, run (mkCfg dedup false) w_unused_cards w_unused_cells = Ok (surfs, bcs)) /\
-    In (5%N, e) t /\ e_flag e = "*" /\ smallest_dup (number_items t) 5 /\
-    In (Reflection, 5%N) bcs /\ ~ In 5%N (map fst surfs).
-Proof. exact bc_unused_refuted. Qed.
-Print Assumptions C16_bc_unused_refuted.
+(* two coincident surfaces, one reflecting and one white, whose common
+   representative is written: the run stops with a ValueError *)
+Theorem C16_conflicting_flags_rejected :
+  forall (cfg : config) (cards : list scard) (cells : list cell) (t : table)
+         (surfs : list (N * N)) (k1 : N) (e1 : entry) (k2 : N) (e2 : entry),
+  skip_bc cfg = false ->
+  parse_cards cards [] = Ok t -> proper t ->
+  geometry (negb (skip_dedup cfg)) t cells = Ok surfs ->
+  In (k1, e1) t -> e_flag e1 = "*" -> In (k2, e2) t -> e_flag e2 = "+" ->
+  rep (negb (skip_dedup cfg)) (number_items t) k1 = rep (negb (skip_dedup cfg)) (number_items t) k2 ->
+  In (rep (negb (skip_dedup cfg)) (number_items t) k1) (map fst surfs) ->
+  run cfg cards cells = Err EValue.
+Proof. exact conflicting_flags_rejected. Qed.
+Print Assumptions C16_conflicting_flags_rejected.
+
+(* the TRIPOLI-4 numbering has distinct ids (keys, then fresh ids for the
+   other parts) *)
+Theorem C16_number_items_distinct : forall t : table,
+  NoDup (map fst t) -> NoDup (map fst (number_items t)).
+Proof. exact number_items_nodup. Qed.
+Print Assumptions C16_number_items_distinct.
 
 (* ---- decks whose cells may carry TRCL (what the correspondence executes) -- *)
 
@@ -145,10 +161,9 @@ Theorem C16_expanded_table :
 Proof. exact expanded_table. Qed.
 Print Assumptions C16_expanded_table.
 
-(* the main statement with TRCL, for every entry of the expanded dictionary
-   (a parsed card or the copy made for a literal of a cell with TRCL), under
-   the same guard: the entry's key bounds a converted cell that survives, and
-   de-duplication is off or the key is the smallest among its duplicates *)
+(* the main statement with TRCL, no guard, for every flagged entry of the
+   expanded dictionary (a parsed card or the copy made for a literal of a cell
+   with TRCL) that bounds a converted cell that survives *)
 Theorem C16_bc_designates_present_same_locus_trcl :
   forall (cfg : config) (cards : list scard) (tcells : list tcell) (t : table)
          (cells : list (bool * cell)) (t' : table)
@@ -160,26 +175,57 @@ Theorem C16_bc_designates_present_same_locus_trcl :
   In (k, e) t' -> (e_flag e = "*" \/ e_flag e = "+") ->
   (exists c, In c (converted cells) /\
              survives (negb (skip_dedup cfg)) (number_items t') c /\ bounds c k) ->
-  (skip_dedup cfg = true \/ smallest_dup (number_items t') k) ->
-  In (kind_of (e_flag e), k) bcs /\ In (k, e_first e) surfs.
+  let k' := rep (negb (skip_dedup cfg)) (number_items t') k in
+  In (kind_of (e_flag e), k') bcs /\ count_key k' bcs = 1%nat /\ In (k', e_first e) surfs.
 Proof. exact bc_designates_present_same_locus_trcl. Qed.
 Print Assumptions C16_bc_designates_present_same_locus_trcl.
 
-(* every literal of a cell with TRCL gets a copy that carries the flag of the
-   surface it names and the transformed descriptor; when that flag is a star
-   or a plus the copy has its own entry of that kind *)
-Theorem C16_trcl_copy_has_entry :
-  forall (cfg : config) (cards : list scard) (tcells : list tcell)
-         (surfs : list (N * N)) (bcs : list (kind * N)) (c : tcell) (l : lit),
+Theorem C16_bc_entries_designate_written_trcl :
+  forall (cfg : config) (cards : list scard) (tcells : list tcell) (t : table)
+         (cells : list (bool * cell)) (t' : table)
+         (surfs : list (N * N)) (bcs : list (kind * N)),
   skip_bc cfg = false ->
+  parse_cards cards [] = Ok t ->
+  apply_trcls tcells t (N.succ (max_key t)) = Ok (cells, t') ->
   run_t cfg cards tcells = Ok (surfs, bcs) ->
+  NoDup (map snd bcs) /\
+  forall kd k', In (kd, k') bcs ->
+    exists k e, In (k, e) t' /\ inherits t e /\ e_flag e <> "" /\
+      (e_flag e = "*" -> kd = Reflection) /\ (e_flag e = "+" -> kd = Cosinus) /\
+      rep (negb (skip_dedup cfg)) (number_items t') k = k' /\ In (k', e_first e) surfs.
+Proof. exact bc_entries_designate_written_trcl. Qed.
+Print Assumptions C16_bc_entries_designate_written_trcl.
+
+Theorem C16_conflicting_flags_rejected_trcl :
+  forall (cfg : config) (cards : list scard) (tcells : list tcell) (t : table)
+         (cells : list (bool * cell)) (t' : table) (surfs : list (N * N))
+         (k1 : N) (e1 : entry) (k2 : N) (e2 : entry),
+  skip_bc cfg = false ->
+  parse_cards cards [] = Ok t -> proper t ->
+  apply_trcls tcells t (N.succ (max_key t)) = Ok (cells, t') ->
+  geometry (negb (skip_dedup cfg)) t' (converted cells) = Ok surfs ->
+  In (k1, e1) t' -> e_flag e1 = "*" -> In (k2, e2) t' -> e_flag e2 = "+" ->
+  rep (negb (skip_dedup cfg)) (number_items t') k1 =
+    rep (negb (skip_dedup cfg)) (number_items t') k2 ->
+  In (rep (negb (skip_dedup cfg)) (number_items t') k1) (map fst surfs) ->
+  run_t cfg cards tcells = Err EValue.
+Proof. exact conflicting_flags_rejected_trcl. Qed.
+Print Assumptions C16_conflicting_flags_rejected_trcl.
+
+(* every literal of a cell with TRCL gets a copy in the dictionary that
+   carries the flag of the surface it names and the transformed descriptor *)
+Theorem C16_trcl_copy_in_table :
+  forall (cfg : config) (cards : list scard) (tcells : list tcell) (out : output)
+         (c : tcell) (l : lit),
+  run_t cfg cards tcells = Ok out ->
   In c tcells -> tc_trcl c = true -> In l (tc_lits c) ->
-  exists t' e k',
+  exists t cells t' e k',
+    parse_cards cards [] = Ok t /\
+    apply_trcls tcells t (N.succ (max_key t)) = Ok (cells, t') /\
     dict_get (Z.abs_N (l_z l)) t' = Some e /\
-    In (k', mkE (e_flag e) (e_mcnp e) (l_cls l) (l_aux l)) t' /\
-    ((e_flag e = "*" \/ e_flag e = "+") -> In (kind_of (e_flag e), k') bcs).
-Proof. exact trcl_copy_has_entry. Qed.
-Print Assumptions C16_trcl_copy_has_entry.
+    In (k', mkE (e_flag e) (e_mcnp e) (l_cls l) (l_aux l)) t'.
+Proof. exact trcl_copy_in_table. Qed.
+Print Assumptions C16_trcl_copy_in_table.
 
 (* unflagged surfaces yield none: a deck without a flagged card has no entry,
    whatever its cells and their TRCL *)
@@ -200,70 +246,14 @@ Theorem C16_macrobody_flag_stops_run_t :
 Proof. exact macrobody_flag_stops_run_t. Qed.
 Print Assumptions C16_macrobody_flag_stops_run_t.
 
-(* no guard needed: every entry written comes from a flagged surface (or a
-   copy of one) and has the kind of its flag; unflagged surfaces yield none *)
+(* every entry of conversionBoundCond's dictionary comes from a flagged
+   surface (or a copy of one) and has the kind of its flag *)
 Theorem C16_bc_entry_sound : forall (t : table) (l : list (kind * N)) (kd : kind) (k : N),
   NoDup (map fst t) -> bc_entries t = Ok l -> In (kd, k) l ->
   exists e, In (k, e) t /\ e_flag e <> "" /\
     (e_flag e = "*" -> kd = Reflection) /\ (e_flag e = "+" -> kd = Cosinus).
 Proof. exact bc_entry_sound. Qed.
 Print Assumptions C16_bc_entry_sound.
-
-(* no guard needed: an entry never designates a written surface of ANOTHER
-   locus.  When the designated number is a SURF line at all, the line carries
-   the descriptor of the flagged surface (or TRCL copy) the entry was made
-   for.  So the defects of the unchanged code (C16_*_refuted) are all of one
-   sort: the designated surface is absent, never wrong. *)
-Theorem C16_bc_never_designates_other_locus :
-  forall (cfg : config) (cards : list scard) (tcells : list tcell) (t : table)
-         (cells : list (bool * cell)) (t' : table)
-         (surfs : list (N * N)) (bcs : list (kind * N)) (kd : kind) (k d : N),
-  parse_cards cards [] = Ok t ->
-  apply_trcls tcells t (N.succ (max_key t)) = Ok (cells, t') ->
-  run_t cfg cards tcells = Ok (surfs, bcs) ->
-  In (kd, k) bcs -> In (k, d) surfs ->
-  exists e, In (k, e) t' /\ d = e_first e /\ inherits t e /\ e_flag e <> "" /\
-    (e_flag e = "*" -> kd = Reflection) /\ (e_flag e = "+" -> kd = Cosinus).
-Proof. exact bc_never_other_locus. Qed.
-Print Assumptions C16_bc_never_designates_other_locus.
-
-(* the whole block of a deck with MCNP's flags only and no flagged macrobody:
-   the flagged cards in card order, then the copies of flagged surfaces made
-   for cells with TRCL, in cell and literal order *)
-Theorem C16_run_t_block_exact :
-  forall (cfg : config) (cards : list scard) (tcells : list tcell) (t : table)
-         (cells : list (bool * cell)) (t' : table)
-         (surfs : list (N * N)) (bcs : list (kind * N)),
-  skip_bc cfg = false ->
-  parse_cards cards [] = Ok t -> proper t ->
-  apply_trcls tcells t (N.succ (max_key t)) = Ok (cells, t') ->
-  run_t cfg cards tcells = Ok (surfs, bcs) ->
-  bcs = flat_map entry_of t'.
-Proof. exact run_t_block_exact. Qed.
-Print Assumptions C16_run_t_block_exact.
-
-(* *2 PX 0 used only by a cell with TRCL=(1 0 0): one flagged surface bounding
-   a converted cell yields two entries; the one for the copy (7) designates a
-   written SURF, the one for the original designates nothing, with and without
-   de-duplication (finding class bc_on_trcl_original_surface) *)
-Theorem C16_bc_trcl_original_refuted :
-  forall sd, exists surfs,
-    run_t (mkCfg sd false) w_trcl_cards w_trcl_cells =
-      Ok (surfs, [(Reflection, 2%N); (Reflection, 7%N)]) /\
-    In (7%N, 8%N) surfs /\ ~ In 2%N (map fst surfs).
-Proof. exact bc_trcl_original_refuted. Qed.
-Print Assumptions C16_bc_trcl_original_refuted.
-
-(* *2 PX 0 used by a cell with TRCL=(0 0 0) and by a plain cell,
-   de-duplication on: the copy 7 equals 2, is renamed to 2, keeps its entry
-   (finding class bc_on_deduplicated_trcl_copy) *)
-Theorem C16_bc_trcl_copy_dedup_refuted :
-  exists surfs bcs,
-    run_t (mkCfg false false) w_copy_cards w_copy_cells = Ok (surfs, bcs) /\
-    In (Reflection, 7%N) bcs /\ ~ In 7%N (map fst surfs) /\
-    In (Reflection, 2%N) bcs /\ In (2%N, 7%N) surfs.
-Proof. exact bc_trcl_copy_dedup_refuted. Qed.
-Print Assumptions C16_bc_trcl_copy_dedup_refuted.
 
 (* quirk of conversionBoundCond: a flag that is neither one star nor one plus
    (the card regex accepts any run of them) is an UnboundLocalError when it
@@ -275,53 +265,92 @@ Theorem C16_bc_stale_kind_quirk : forall (k : N) (f : string) (r : list (N * str
 Proof. exact stale_kind_quirk. Qed.
 Print Assumptions C16_bc_stale_kind_quirk.
 
-(* non-vacuity: a deck with a reflecting plane that has a larger-numbered
-   duplicate, a white sphere, an unflagged plane, de-duplication on; every
-   hypothesis of the main theorem holds for the reflecting plane 2 *)
+(* non-vacuity: a reflecting plane 3 whose smaller-numbered duplicate 2 is
+   unflagged, a white sphere, de-duplication on; the hypotheses of the main
+   theorem hold for 3, its entry is on SURF 2 *)
 Example C16_example :
-  let cards := [mkS "1" 1 5 []; mkS "*2" 1 7 []; mkS "3" 1 7 []; mkS "+9" 1 8 []] in
-  let cells := [(1%N, [(-1)%Z; 2%Z; (-9)%Z]); (2%N, [3%Z; (-2)%Z])] in
+  let cards := [mkS "1" 1 5 []; mkS "2" 1 7 []; mkS "*3" 1 7 []; mkS "+9" 1 8 []] in
+  let cells := [(1%N, [(-1)%Z; 3%Z; (-9)%Z])] in
   exists t e,
     parse_cards cards [] = Ok t /\
     run (mkCfg false false) cards cells =
       Ok ([(1, 5); (2, 7); (9, 8)]%N, [(Reflection, 2%N); (Cosinus, 9%N)]) /\
-    In (2%N, e) t /\ e_flag e = "*" /\
-    (exists c, In c cells /\ survives true (number_items t) c /\ bounds c 2) /\
-    smallest_dup (number_items t) 2.
+    In (3%N, e) t /\ e_flag e = "*" /\
+    (exists c, In c cells /\ survives true (number_items t) c /\ bounds c 3) /\
+    rep true (number_items t) 3 = 2%N.
 Proof.
   cbv zeta. eexists. eexists.
   split; [vm_compute; reflexivity|].
   split; [vm_compute; reflexivity|].
-  split; [right; left; reflexivity|].
+  split; [right; right; left; reflexivity|].
   split; [reflexivity|].
-  split.
-  - exists (1%N, [(-1)%Z; 2%Z; (-9)%Z]). split; [left; reflexivity|]. split.
-    + exists [2%N], [1%N; 9%N]. repeat split; vm_compute; reflexivity.
-    + left. left. reflexivity.
-  - intros d k' Hd Hin. vm_compute in Hd. inversion Hd; subst d. vm_compute in Hin.
-    destruct Hin as [H|[H|[H|[H|[]]]]]; inversion H; subst; lia.
+  split; [|vm_compute; reflexivity].
+  exists (1%N, [(-1)%Z; 3%Z; (-9)%Z]). split; [left; reflexivity|]. split.
+  - exists [2%N], [1%N; 9%N]. repeat split; vm_compute; reflexivity.
+  - left. left. reflexivity.
 Qed.
 
-(* non-vacuity with TRCL: *2 PX 0 used only by a cell with TRCL=(1 0 0),
-   de-duplication on; the copy 7 (PX 1) satisfies every hypothesis of
-   C16_bc_designates_present_same_locus_trcl *)
+(* non-vacuity with TRCL: *2 PX 0 used only by a cell with TRCL=(1 0 0); the
+   copy 7 (PX 1) satisfies the hypotheses; the block is its single entry *)
 Example C16_example_trcl :
   exists t cells t' e,
     parse_cards w_trcl_cards [] = Ok t /\
     apply_trcls w_trcl_cells t (N.succ (max_key t)) = Ok (cells, t') /\
+    run_t (mkCfg false false) w_trcl_cards w_trcl_cells =
+      Ok ([(4, 9); (6, 15); (7, 8)]%N, [(Reflection, 7%N)]) /\
     In (7%N, e) t' /\ e_flag e = "*" /\ e_first e = 8%N /\
-    (exists c, In c (converted cells) /\ survives true (number_items t') c /\ bounds c 7) /\
-    smallest_dup (number_items t') 7.
+    (exists c, In c (converted cells) /\ survives true (number_items t') c /\ bounds c 7).
 Proof.
   eexists. eexists. eexists. eexists.
   split; [vm_compute; reflexivity|].
   split; [vm_compute; reflexivity|].
+  split; [vm_compute; reflexivity|].
   split; [do 4 right; left; reflexivity|].
   split; [reflexivity|]. split; [reflexivity|].
+  exists (1%N, [(-6)%Z; 7%Z; (-8)%Z]). split; [left; reflexivity|]. split.
+  - exists [7%N], [6%N; 4%N]. repeat split; vm_compute; reflexivity.
+  - left. left. reflexivity.
+Qed.
+
+(* non-vacuity of C16_conflicting_flags_rejected: *2 PX 0 and +3 PX 0, the cell
+   uses 3, de-duplication on *)
+Example C16_example_conflict :
+  exists t surfs e1 e2,
+    parse_cards w_conflict_cards [] = Ok t /\ proper t /\
+    geometry true t w_dedup_cells = Ok surfs /\
+    In (2%N, e1) t /\ e_flag e1 = "*" /\ In (3%N, e2) t /\ e_flag e2 = "+" /\
+    rep true (number_items t) 2 = rep true (number_items t) 3 /\
+    In (rep true (number_items t) 2) (map fst surfs) /\
+    run (mkCfg false false) w_conflict_cards w_dedup_cells = Err EValue /\
+    exists surfs', run (mkCfg true false) w_conflict_cards w_dedup_cells =
+                   Ok (surfs', [(Cosinus, 3%N)]).
+Proof.
+  eexists. eexists. eexists. eexists.
+  split; [vm_compute; reflexivity|].
   split.
-  - exists (1%N, [(-6)%Z; 7%Z; (-8)%Z]). split; [left; reflexivity|]. split.
-    + exists [7%N], [6%N; 4%N]. repeat split; vm_compute; reflexivity.
-    + left. left. reflexivity.
-  - intros d k' Hd Hin. vm_compute in Hd. inversion Hd; subst d. vm_compute in Hin.
-    destruct Hin as [H|[H|[H|[H|[H|[H|[]]]]]]]; inversion H; subst; lia.
+  { intros k e [H|[H|[H|[H|[]]]]]; inversion H; subst; cbn;
+      (split; [auto|intros _; lia]). }
+  split; [vm_compute; reflexivity|].
+  split; [right; left; reflexivity|]. split; [reflexivity|].
+  split; [right; right; left; reflexivity|]. split; [reflexivity|].
+  split; [vm_compute; reflexivity|].
+  split; [vm_compute; auto|].
+  split; [vm_compute; reflexivity|].
+  eexists. vm_compute. reflexivity.
+Qed.
+
+(* the decks that failed before the repair, on the model of the repaired code *)
+Example C16_regression_decks :
+  run (mkCfg false false) w_dedup_cards w_dedup_cells =
+    Ok ([(1, 5); (2, 7); (4, 9)]%N, [(Reflection, 2%N)]) /\
+  (forall sd, run (mkCfg sd false) w_unused_cards w_unused_cells =
+    Ok ([(1, 5); (2, 7); (4, 9)]%N, [])) /\
+  run_t (mkCfg true false) w_trcl_cards w_trcl_cells =
+    Ok ([(6, 15); (7, 8); (8, 9)]%N, [(Reflection, 7%N)]) /\
+  run_t (mkCfg false false) w_copy_cards w_copy_cells =
+    Ok ([(1, 5); (2, 7); (4, 9)]%N, [(Reflection, 2%N)]).
+Proof.
+  split; [vm_compute; reflexivity|].
+  split; [intros []; vm_compute; reflexivity|].
+  split; vm_compute; reflexivity.
 Qed.
